@@ -34,16 +34,24 @@ def tasks(tier, seed):
     return out
 
 
-def sign_bracket(mp, g, p):
-    """True iff Z changes sign across g*(1 -+ 2^(8-p)) (evaluated at 2p+60 bits)"""
+def sign_bracket(mp, g, p, extra=0):
+    """True iff Z changes sign across g*(1 -+ 2^(8+extra-p)) (evaluated at 2p+60 bits)"""
     old = mp.prec
     mp.prec = 2 * p + 60
     try:
-        d = g * mp.mpf(2) ** (8 - p)
+        d = g * mp.mpf(2) ** (8 + extra - p)
         a, b = mp.siegelz(g - d), mp.siegelz(g + d)
         return (a < 0) != (b < 0) or a == 0 or b == 0
     finally:
         mp.prec = old
+
+
+def lost_bits(mp, g, p):
+    """smallest k in (4, 8, 16, 32) such that the zero lies within gamma*2^(8+k-p) of the returned value; 99 if none"""
+    for k in (4, 8, 16, 32):
+        if sign_bracket(mp, g, p, k):
+            return k
+    return 99
 
 
 def changes_between(mp, a, b, k=16):
@@ -78,7 +86,11 @@ def check_zero(acc, mp, n, z, p, lit=None, **tags):
     elif lit is not None and abs(z.imag - mp.mpf(lit)) > mp.mpf('2e-8'):
         bad = 'gamma = %s, literature value %s' % (mp.nstr(z.imag, 15), lit)
     if bad:
-        acc.violation(case, 'zetazero(%d) at prec %d: %s' % (n, p, bad), kind='zero', **tags)
+        extra = {}
+        if bad.startswith('no sign change'):
+            extra = {'lostbits': lost_bits(mp, z.imag, p), 'hp': p >= 150}
+            bad += ' (it is within 2^(%d-p))' % (8 + extra['lostbits']) if extra['lostbits'] < 99 else ' (not even within 2^(40-p))'
+        acc.violation(case, 'zetazero(%d) at prec %d: %s' % (n, p, bad), kind='zero', **dict(tags, **extra))
         return False
     return True
 
